@@ -131,6 +131,13 @@ CHECKS["C19"] = dict(
     note="Trusted: the h2 client's report of how its connection ended. endpoint/src/main.rs is not run.",
 )
 
+CHECKS["C09"] = dict(
+    level="exploration",
+    text="Seeded search over structurally mutated transcripts on ten untrusted surfaces under planned segmentations, with a bystander on the same endpoint, plus the hostile-peer runs of every other scenario; panics are attributed by backtrace (overflow checks compiled in), wedges are caught by a wall-clock watchdog around the worker process, heap growth per run is measured by a counting allocator, and the bystander must be served before and after.",
+    design="DESIGN.md section 8 (C09)",
+    note="The exhaustive-short-strings clause of the quantifier is not simulation and is not done. One known finding (an assertion inside the h2 crate reached through the endpoint's HTTP/2 server aborts the process) is listed in known_findings.json if it was reproduced; HTTP/3 not simulated.",
+)
+
 NOT_YET = {
 }
 
